@@ -360,6 +360,34 @@ CHECKS['C15'] = {
     'level_note': 'Trusted: libquadmath, Gaussian elimination on 8x8 systems in 113-bit arithmetic. Not covered: durations outside the 30 listed, non-lattice query times other than 0, ts/2, ts.',
 }
 
+
+def c12_jobs(tier):
+    src = ['src/pid.c', 'src/pid_neuro.c', 'src/pid_fuzzy.c', 'src/mf.c', 'src/fuzzy.c', 'src/math.c', 'src/a.c']
+    jobs = []
+    D = 100 if tier == 'quick' else 2400
+    for mode, n in (('plain', 4), ('pair', 2), ('neuro', 4), ('fuzzy', 12)):
+        jobs += grid_jobs('pid-%s' % mode, 'harness/pid.cpp', src, tier, n if tier == 'quick' else 16, extra=['--mode', mode], build='pid', deadline=D)
+    for mode in ('plain', 'neuro', 'fuzzy'):
+        jobs += grid_jobs('pid-%s-asan' % mode, 'harness/pid.cpp', src, 'quick', 4, extra=['--mode', mode], build='pid-asan', san='asan', deadline=D)
+    return jobs
+
+
+CHECKS['C12'] = {
+    'title': 'PID controllers stay within limits and follow their equations for every history', 'level': 'model_checking', 'jobs': c12_jobs,
+    'rule': ('explicit-state BFS over the real controllers; the controller struct is the state. Plain PID (src/pid.c): for each parameter set (quick: 12 sets with one per limit relation - wide, integrator clamp at zero on either side, degenerate clamps, pinned output; '
+             'thorough: the full product kp,kd in {0,1/2,2} x ki in {0,1/2,1} x 4 integrator-limit pairs x 4 output-limit pairs = 432 sets) from EVERY reachable state EVERY step (mode in {run,pos,inc}) x (set-point, feedback) in {-2,0,1}^2 (thorough {-3,-1,0,2}^2) and zero is executed; '
+             'all quantities are dyadic so the arithmetic is exact and the BFS reaches a FIXPOINT (histories of any length). Oracle after every step: output within limits, state finite, integrator never moves further beyond its clamp, inside the clamp it advances by exactly ki*err, beyond the clamp it holds unless the error points inward, '
+             'positional and incremental outputs equal the difference equations exactly, zero restores the initial state. A shadow pair (positional + incremental controller fed the same inputs) must coincide for as long as no limit has been active. '
+             'Single-neuron controller: depth-bounded BFS (4 steps quick, 5 thorough) from 4 weight vectors incl. all-zero x 2 output gains; fuzzy controller: depth-bounded BFS (3 / 4 steps) over 4 rule bases (3x3 shoulder triangles, 5x5 trapezoid shoulders, 3 wide triangles with 3 simultaneously active sets, the 7x7 base of test/pid_fuzzy.h) x ALL SEVEN operators x parameter sets, scratch buffer of exactly A_PID_FUZZY_BFUZZ(active) bytes between canaries: '
+             'output within limits, every field and scheduled gain finite, gains within base + [min,max] of the consequents, step equations with the gains scheduled for that step. distinct_nontrivial = distinct reachable controller states.'),
+    'assumptions': ['dyadic gains/limits/inputs: every floating-point operation of the plain controller is exact, so == comparisons are sound; the fuzzy step is compared within 16 ulp of the term magnitude because scheduled gains are weighted means',
+                    'exactly on a clamp (sum == summax or sum == summin) either holding or integrating is accepted: code comment and header formula differ there', 'the neuron controller is checked for limits, finiteness, cache updates and zeroing, not against the header formula (the statement names the equations of the positional and incremental forms)',
+                    'magnitudes small enough that nothing overflows (quantifier of the property)'],
+    'design_ref': '§4.C12', 'technique': 'explicit-state BFS over the real controller step functions (fixpoint for the plain PID, depth-bounded for neuron and fuzzy) with an exact reference of the difference equations',
+    'level_text': 'For the plain controller the reachable state space under dyadic inputs is finite and explored to a fixpoint for every parameter set, so the limit, anti-windup and equation clauses hold for input histories of unbounded length over the alphabet; the neuron and fuzzy controllers are explored exhaustively to depth 4/3 (5/4 thorough) over all operators and four rule bases.',
+    'level_note': 'Trusted: IEEE double arithmetic being exact on dyadic values. Not covered: non-dyadic gains, inputs outside the alphabets, depths beyond the bound for neuron/fuzzy.',
+}
+
 # ---------------------------------------------------------------- manifest texts
 CHECKS['C01'].update({
     'design_ref': '§4.C01', 'technique': 'explicit-state BFS to a fixpoint over the real src/avl.c (size-bounded, unbounded history length), lock-step reference set, API-replay conformance of every state',
